@@ -7,7 +7,7 @@
      [invoke _ (PPer pid st)] -- the [periodic] closure: if disp.is_disposed: return;
                              state = action(state)  (on exception: disp.dispose(); raise);
                              disp.disposable = scheduler.schedule_relative(period - elapsed, periodic, state)
-                             (virtual time: elapsed = 0)
+                             (elapsed = virtual time the action took, e.g. by scheduler.sleep)
      [SPCancel pid] / [dispose_per] -- disposing the returned disposable.
    This file states what is expected of it. *)
 From RxVerif Require Import Base.Prelude Core.VTime.
@@ -25,24 +25,47 @@ Fixpoint pstate (f : ptable) (st0 : Z) (k : nat) : option Z :=
   match k with
   | O => Some st0
   | S k' => match pstate f st0 k' with
-            | Some st => match plookup f st with PNext _ st' => Some st' | _ => None end
+            | Some st => match plookup f st with PNext _ _ st' => Some st' | _ => None end
             | None => None
             end
   end.
 
+(* virtual time the call on state st takes (the action sleeps) *)
+Definition pelapsed (f : ptable) (st : Z) : Z :=
+  match plookup f st with PNext _ sl _ => Z.of_N sl | _ => 0 end.
+
+(* distance between the start of the first call and the start of the k-th one:
+   each call j < k contributes max(period, time the call took) -- the period when the
+   call fits into it (elapsed-time compensation), its own duration when it overruns
+   (the next call then starts as soon as it ends, and nothing is caught up) *)
+Fixpoint tsum (f : ptable) (p : Z) (st : Z) (k : nat) : Z :=
+  match k with
+  | O => 0
+  | S k' => Z.max p (pelapsed f st) +
+            match plookup f st with PNext _ _ st' => tsum f p st' k' | _ => 0 end
+  end.
+
+(* no call before the k-th one takes longer than the period *)
+Definition ontime (f : ptable) (p : Z) (st : Z) (k : nat) : Prop :=
+  forall j x, (j < k)%nat -> pstate f st j = Some x -> pelapsed f x <= p.
+
 (* The calls a periodic subscription makes up to time t when nothing else is
-   scheduled: first call at [due] with state [st], then one per period, each with
-   the state returned by the previous one, until the action raises or disposes
-   the subscription ([n] bounds the number of calls considered). *)
-Fixpoint solo_spec (f : ptable) (p : Z) (n : nat) (due st t : Z) : list (Z * Z) :=
+   scheduled: [clk] is the clock, [due] the due time of the pending call, [st] its
+   state.  A call starts at max(clk, due); if it returns a state after taking sl
+   virtual time, the next call is due one period after the START of this one
+   (schedule_relative(period - elapsed) issued at start + elapsed), whatever sl is;
+   calls go on while the pending call is due at or before t, until the action
+   raises or disposes the subscription ([n] bounds the number of calls considered). *)
+Fixpoint solo_spec (f : ptable) (p : Z) (n : nat) (clk due st t : Z) : list (Z * Z) :=
   match n with
   | O => []
   | S n' =>
       if t <? due then []
-      else (st, due) :: match plookup f st with
-                        | PNext _ st' => solo_spec f p n' (due + p) st' t
-                        | _ => []
-                        end
+      else let T := Z.max clk due in
+           (st, T) :: match plookup f st with
+                      | PNext _ sl st' => solo_spec f p n' (T + Z.of_N sl) (T + p) st' t
+                      | _ => []
+                      end
   end.
 
 (* no call of a periodic action after its subscription was disposed (log newest first) *)
@@ -62,6 +85,6 @@ Fixpoint no_tick_after_dispose (l : list event) : Prop :=
 Fixpoint count_table_l (n : nat) : list (Z * pres) :=
   match n with
   | O => []
-  | S k => count_table_l k ++ [(Z.of_nat k, PNext [] (Z.of_nat k + 1))]
+  | S k => count_table_l k ++ [(Z.of_nat k, PNext [] 0%N (Z.of_nat k + 1))]
   end.
 Definition count_table (n : nat) : ptable := (count_table_l n, PRaise [] 99).
